@@ -383,6 +383,19 @@ func checkGuards(r *Reporter, p *Prog, rule string, rows []GuardRow) {
 							base += embeddedChain(sel, len(sel.Index())-1)
 							want := base + "." + row.Mutex
 							if held[want] < need && !condLocked(x.Pos(), want) {
+								// a helper that calls a caller-holds helper on its own receiver is itself a
+								// candidate caller-holds helper
+								fnN := needs[fkey]
+								if fnN == nil {
+									fnN = &fnNeed{row: row, recvOnly: true}
+									needs[fkey] = fnN
+								}
+								if need > fnN.mode {
+									fnN.mode = need
+								}
+								if recvPath == "" || want != recvPath+"."+row.Mutex || (recvT != row.Type && recvT != row.ViaRecvType) || fnN.row.Mutex != row.Mutex || fnN.row.Pkg != row.Pkg {
+									fnN.recvOnly = false
+								}
 								a.bad = append(a.bad, fmt.Sprintf("%s: call of caller-holds helper %s needs %s held %s, held: %s", p.posStr(x.Pos()), fn.Name(), displayPath(want), need, held))
 							}
 						}
